@@ -19,6 +19,7 @@ def errName : Err → String
   | .ech => "ech"
   | .ip6NoColon => "ip6-nocolon"
   | .ip6Parse => "ip6-parse"
+  | .alpnLen => "alpn-len"
   | .dupKey => "dup-key"
   | .mandMissing => "mand-missing"
   | .panic => "panic"
@@ -46,7 +47,8 @@ def modelOut (t : Bytes) : String :=
    `decodeRFC` recovers exactly that declaration from the implementation's wire bytes
    (this includes strictly increasing keys and the per-key value formats);
  * the printed text, parsed again (model parser), gives the same wire bytes;
- * expectation `rej` (generator: invalid `mandatory`) ⇒ rejected; `acc` ⇒ accepted. -/
+ * expectation `rej` (generator: invalid `mandatory`, alpn id of length 0 or > 255) ⇒ rejected;
+   `acc` ⇒ accepted. -/
 def specOut (t : Bytes) (expect : String) (impl : Option String) : String :=
   match impl with
   | none => "-"
